@@ -26,7 +26,8 @@ REQUIRED = ['plane_point_on_plane', 'plane_point_range_sq', 'plane_point_range',
             'batch_getElem', 'blocks_flatten', 'blockwise_eq_map', 'doWhile_spec', 'hae_exit_bound',
             'hae_iterate_on_contour', 'hae_pointwise_given_iterations', 'g2i_exit_bound', 'planePoint_some_masks',
             'pfa_rdot_is_time_derivative', 'inca_rdot_is_time_derivative', 'inca_consistent', 'ipp_on_own_contour',
-            'ex_nondegenerate', 'look_zero_counterexample']
+            'ex_nondegenerate', 'look_zero_counterexample',
+            'coaDefine_override', 'coaDefine_fresh', 'coaDefine_keep', 'coaRun_last_override', 'coaRun_snoc_keep', 'coaRun_mem', 'coaRun_isSome', 'coaUsed_after_method']
 
 ALARM_M = 1e-4        # metres: surface / contour residual
 ALARM_PIX = 1e-3      # pixels: round trip
@@ -908,8 +909,38 @@ def wrappers(rec, case, rng, pp, cls):
               s2.project_image_to_ground(pix, projection_type='PLANE') - case['Pa'], IDENT, k)
     rec.check(case, 'use_structure_coa=False ignores the stored projection',
               pp.image_to_ground_plane(pix, s2, use_structure_coa=False) - P, IDENT, k)
-    rec.evals += 9 * N
+    # histories of define_coa_projection calls (explicit / default override, method calls in between): which parameter set
+    # the structure's own methods use afterwards (Lean: coaDefine / coaRun, theorems coaRun_last_override, coaRun_snoc_keep, ...)
+    adj2 = dict(adj, range_bias=adj['range_bias'] + rng.choice([-25.0, 25.0]))
+    pool = [{}, adj, adj2]
+    outs = [P, case['Pa'], pp.image_to_ground_plane(pix, s, use_structure_coa=False, **adj2)]
+    s3 = s.copy()
+    ops = []
+    for _ in range(rng.randint(1, 5)):
+        i_, o_ = rng.randrange(3), rng.random() < 0.55
+        if o_ and rng.random() < 0.5:
+            s3.define_coa_projection(**pool[i_])            # override defaults to True
+        else:
+            s3.define_coa_projection(override=o_, **pool[i_])
+        ops.append((i_, o_))
+        if rng.random() < 0.35:
+            s3.project_ground_to_image(P[:1])               # a method call in between must not replace what is stored
+    got = s3.project_image_to_ground(pix, projection_type='PLANE')
+    used = [j for j in range(3) if numpy.all(numpy.isfinite(got) == numpy.isfinite(outs[j])) and
+            float(numpy.nanmax(numpy.abs(got - outs[j]), initial=0.0)) <= IDENT]
+    want = None
+    for i_, o_ in ops:
+        if o_ or want is None:
+            want = i_
+    case.setdefault('coa_hist', []).append((ops, used))
+    if want not in used:
+        rec.fails.append({'key': k, 'case': case['name'], 'what': 'define_coa_projection history',
+                          'msg': f'{case["name"]}: after define_coa_projection history {[(i, bool(o)) for i, o in ops]} (parameter set index, override) the structure\'s '
+                                 f'project_image_to_ground agrees with the module function for parameter set(s) {used}, expected set {want}',
+                          'meta': meta_json(case['meta']), 'adj_pool': pool, 'history': ops})
+    rec.evals += 10 * N
     rec.classes.add(cls + ('wrappers',))
+    rec.classes.add(('coa-history', len(ops), any(o for _, o in ops), all(o for _, o in ops)))
 
 
 def mirror_pairs(rec, cases):
@@ -1035,6 +1066,10 @@ def correspondence(chk, cases, rng, tier):
         finally:
             pp._image_to_ground_plane = orig
         blk.append((n, ln, seen, drv.ask(f'proj blocks {n} {ln}')))
+    hist = []
+    for case in cases:
+        for ops, used in case.get('coa_hist', []):
+            hist.append((case['name'], ops, used, drv.ask('proj coacache ' + (','.join(f'{i_}:{int(o_)}' for i_, o_ in ops) or '-'))))
     ans = drv.run()
     for kind, case, impl, i in jobs:
         nm = case['name']
@@ -1088,6 +1123,10 @@ def correspondence(chk, cases, rng, tier):
             if abs(side_ref) > 1e-6 * scale and abs(side_got) > 1e-6 * scale and side_ref * side_got < 0:
                 corr.disagree.append({'msg': f'_image_to_ground_plane_perform returns the mirror intersection: the point {impl.tolist()} lies on the other side of '
                                              f'the ground track than the ground reference point (plane normal {uz.tolist()})', 'oracle': True, 'input': inp})
+        corr.n += 1
+    for nm, ops, used, i in hist:
+        if ans[i] == 'N' or not ans[i].isdigit() or int(ans[i]) not in used:
+            corr.disagree.append({'msg': f'{nm}: define_coa_projection history {ops}: model says parameter set {ans[i]} is in effect, implementation agrees with set(s) {used}'})
         corr.n += 1
     for n, ln, seen, i in blk:
         if ans[i] != '[' + ','.join(str(x) for x in seen) + ']':
